@@ -27,7 +27,7 @@ def ill_edit(rng, p, cols, eng):
     kinds = ["calc_missing", "sel_missing", "sort_missing", "proj_missing", "slice_neg", "slice_rev", "slice_step",
              "chain_cols", "chain_engine", "join_pred_missing", "join_engine"]
     if cols:
-        kinds += ["calc_exists", "unsupported_calc", "unsupported_sel", "unsupported_sort"]
+        kinds += ["calc_exists", "unsupported_calc", "unsupported_sel", "unsupported_sort", "proj_swap", "proj_swap", "proj_narrow"]
     k = rng.choice(kinds)
     other_eng = rng.choice([e for e in mp.ENGINES if e != eng])
     col = rng.choice(sorted(cols)) if cols else None
@@ -39,6 +39,11 @@ def ill_edit(rng, p, cols, eng):
         return ("un", ("sel", ("cmp", "lt", ("ref", missing), ("lit", 1))), opts, p), ["ColumnError"], k
     if k == "sort_missing":
         return ("un", ("sort", [(("ref", missing), True)]), opts, p), ["ColumnError"], k
+    if k == "proj_swap":       # as wide as the target, one column replaced by a missing one
+        return ("un", ("proj", sorted((cols - {col}) | {missing})), opts, p), ["ColumnError"], k
+    if k == "proj_narrow":     # narrower than the target, but naming a missing column
+        keep = {c for c in cols if rng.random() < 0.5}
+        return ("un", ("proj", sorted(keep | {missing})), opts, p), ["ColumnError"], k
     if k == "proj_missing":
         return ("un", ("proj", sorted(cols | {missing})), opts, p), ["ColumnError"], k
     if k == "slice_neg":
